@@ -2,6 +2,7 @@ package main
 
 import (
 	"fmt"
+	"go/token"
 	"regexp"
 	"sort"
 	"strings"
@@ -234,6 +235,7 @@ func runC12(c *Ctx) {
 		}
 	}
 	ruleParamEnable(c)
+	ruleVerbCaseInsensitive(c)
 	ruleParserCursor(c)       // a parameter is accepted/refused by its own rule only if it reaches the parameter switch: also after the null reverse-path
 	ruleProtocolErrorSites(c) // "refused with 504": one reply, however many parameters were refused before, and the connection goes on
 	// AUTH / STARTTLS handlers use the same predicates as the advertisement
@@ -555,4 +557,74 @@ func ruleCapsTable(c *Ctx) {
 	R.Extra["configurations_enumerated"] = nCfg
 	R.Extra["config_atoms"] = atoms
 	R.Ob("(*Conn).handleGreet/truth table over all configurations", c.P.Pos(f.Pos()), nDis == 0 && nCfg > 0, fmt.Sprintf("%d disagreements over %d configurations, first: %s", nDis, nCfg, firstDis))
+}
+
+// ruleVerbCaseInsensitive (C12, C04): command verbs are recognised whatever their case — "every advertised extension's
+// command is then accepted" includes `starttls`. In parseCmd and in the dispatcher every comparison of input text with
+// a constant that contains letters is made on an upper-cased (or lower-cased) copy, or with EqualFold.
+func ruleVerbCaseInsensitive(c *Ctx) {
+	R := c.R
+	R.Rule("R-verb-case-insensitive", "E4 value shape", "parseCmd and the dispatcher compare input text with verb constants only after strings.ToUpper (or by EqualFold): STARTTLS and every other verb are accepted in any case", 10)
+	hasLetter := func(k string) bool {
+		for _, r := range k {
+			if r >= 'A' && r <= 'Z' || r >= 'a' && r <= 'z' {
+				return true
+			}
+		}
+		return false
+	}
+	folded := func(v ssa.Value) bool {
+		d := describe(v)
+		return strings.HasPrefix(d, "strings.ToUpper(") || strings.HasPrefix(d, "strings.ToLower(")
+	}
+	n := 0
+	for _, fn := range []string{"parseCmd", "(*Conn).handle"} {
+		f := c.A.Func(fn)
+		if f == nil {
+			continue
+		}
+		allInstrs(f, func(in ssa.Instruction) {
+			var other ssa.Value
+			var k string
+			switch x := in.(type) {
+			case *ssa.BinOp:
+				if x.Op != token.EQL && x.Op != token.NEQ {
+					return
+				}
+				if s, ok := constString(x.Y); ok {
+					other, k = x.X, s
+				} else if s, ok := constString(x.X); ok {
+					other, k = x.Y, s
+				} else {
+					return
+				}
+			case *ssa.Call:
+				g := staticCallee(&x.Call)
+				if g == nil || g.Pkg == nil || g.Pkg.Pkg.Path() != "strings" || len(x.Call.Args) != 2 {
+					return
+				}
+				switch g.Name() {
+				case "HasPrefix", "HasSuffix", "Contains", "Index", "CutPrefix":
+				default:
+					return
+				}
+				s, ok := constString(x.Call.Args[1])
+				if !ok {
+					return
+				}
+				other, k = x.Call.Args[0], s
+			default:
+				return
+			}
+			if !hasLetter(k) {
+				return
+			}
+			if _, isConst := constString(other); isConst {
+				return
+			}
+			n++
+			R.Ob(c.siteKey(in, fmt.Sprintf("comparison with %q is case-insensitive", k)), c.P.InstrPos(in), folded(other), fmt.Sprintf("%s compares %s with %q as it was sent: the verb is recognised in upper case only (a client sending it in lower or mixed case gets a syntax error although the extension is advertised)", fn, describe(other), k))
+		})
+	}
+	R.Ob("verbs/comparisons found", "-", n >= 10, fmt.Sprintf("%d comparisons with verb constants found", n))
 }
